@@ -283,7 +283,9 @@ func (c *VirtualTable) BestIndex(input []IndexInput, order []OrderInput) (*Index
 			out.AlreadyOrdered = false
 		}
 		if desc != nil {
-			return nil, errors.New("order specified multiple times")
+			// more than one ORDER BY term: let SQLite do the sorting
+			out.AlreadyOrdered = false
+			break
 		}
 		v := order[i].Desc
 		desc = &v
